@@ -137,10 +137,12 @@ func commitVoteRules(c *Ctx) {
 			for _, pcase := range phiCases(in.(*ssa.Return).Results[0]) {
 				n++
 				v := pathOf(pcase.Val)
+				// a case that returns directly has its conditions on the return itself
+				conds := append(append([]string{}, pcase.Conds...), domConds(in)...)
 				switch {
-				case v == "commitBlockID" && hasCond(pcase.Conds, `^\(cs\.BlockIDFlag == const:`+flagCommit+`\)=T$`):
+				case v == "commitBlockID" && hasCond(conds, `^\(cs\.BlockIDFlag == const:`+flagCommit+`\)=T$`):
 					okC = true
-				case v == "nil" && (hasCond(pcase.Conds, `^\(cs\.BlockIDFlag == const:`+flagNil+`\)=T$`) || hasCond(pcase.Conds, `^\(cs\.BlockIDFlag == const:`+flagAbsent+`\)=T$`)):
+				case v == "nil" && (hasCond(conds, `^\(cs\.BlockIDFlag == const:`+flagNil+`\)=T$`) || hasCond(conds, `^\(cs\.BlockIDFlag == const:`+flagAbsent+`\)=T$`)):
 					okZ++
 				default:
 					c.Bad("T", fnName(fn)+"/block id per flag: commit flag gives the commit's id, nil and absent give the zero id", instrPos(in), n, "value "+v+" under "+strings.Join(pcase.Conds, " & "))
